@@ -21,6 +21,7 @@ import TonVerif.Drv.Tl
 import TonVerif.Drv.Hashmap
 import TonVerif.Drv.Boc
 import TonVerif.Drv.BocEntry
+import TonVerif.Drv.TlbSrc
 
 open TonVerif TonVerif.Drv
 
@@ -41,7 +42,8 @@ def handlers : List (String → List String → Option String) := [
   Tl.handle?,
   Hashmap.handle?,
   Boc.handle?,
-  BocEntry.handle?
+  BocEntry.handle?,
+  TlbSrc.handle?
 ]
 
 def handle (op : String) (args : List String) : String :=
